@@ -65,7 +65,7 @@ func (b Board) calculateHash() Hash {
 		}
 	}
 
-	if b.EnPassant != 0 {
+	if b.epCapturable() {
 		hash ^= epFileRand[b.EnPassant%8]
 	}
 
